@@ -307,6 +307,26 @@ func historyCase(c *h.Case) {
 		if tainted[n] {
 			continue
 		}
+		// Closing a proxy updates two tables one after the other (visitor listener first, then the name
+		// table). A probe that sees "no such proxy" while a close / session end of that name is still in
+		// progress has observed the first half only; the name itself may legitimately still be taken for
+		// a moment (a registration refused during a concurrent close is not a violation of the property).
+		// Such probes are uninformative for the single-register model.
+		for i := range hist {
+			in, out := hist[i].Input.(opIn), hist[i].Output.(opOut)
+			if in.Kind != "probe" || out.Unk || out.Owner != 0 {
+				continue
+			}
+			for j := range hist {
+				k := hist[j].Input.(opIn).Kind
+				if (k == "close" || k == "end") && hist[j].Call <= hist[i].Return && hist[i].Call <= hist[j].Return {
+					out.Unk = true
+					hist[i].Output = out
+					run.Count("probes_concurrent_with_close", 1)
+					break
+				}
+			}
+		}
 		res, info := porcupine.CheckOperationsVerbose(nameModel, hist, 60*time.Second)
 		switch res {
 		case porcupine.Illegal:
